@@ -32,6 +32,7 @@ type Contract struct {
 	Requires    []*Clause
 	Ensures     []*Clause
 	Loops       map[int]*LoopSpec
+	GhostDefs   []*Clause            // ghostdef: definition of a ghost spec function, assumed at entry
 	Det         bool                 // `deterministic`: results and written memory are a function of the argument VALUES (checked: #frame:det)
 	OrderFree   bool                 // `orderfree`: may range over a map; its own contract carries the order-independence argument
 	DetCallbacks map[string]bool     // callback NAME deterministic
@@ -305,6 +306,9 @@ func (db *ContractDB) load(path string) error {
 		case "pure":
 			need()
 			cur.Pure = true
+		case "ghostdef":
+			need()
+			cur.GhostDefs = append(cur.GhostDefs, parse(rest))
 		case "deterministic":
 			need()
 			cur.Det = true
